@@ -78,6 +78,10 @@ impl Instant {
 pub assume_specification<T: std::default::Default> [std::mem::take] (x: &mut T) -> (r: T)
     ensures r == *old(x), T::default.ensures((), *final(x));
 
+/// hypothesis "redb reports no storage error" (begin_write / opening the tables / commit all succeed). Used only as the
+/// antecedent of clauses that separate a failing OPERATION (its closure returned Err) from a failing storage layer.
+pub uninterp spec fn storage_ok() -> bool;
+
 /// `redb::Database`: ghost field = the durable contents (what a store reopened after a crash shows)
 pub struct Database { pub committed: Ghost<ContentsV> }
 #[verifier::external_body]
@@ -89,7 +93,7 @@ impl ReadTransaction { pub uninterp spec fn base(&self) -> ContentsV; }
 impl Database {
     #[verifier::external_body]
     pub fn begin_write(&self) -> (r: std::result::Result<WriteTransaction, TransactionError>)
-        ensures r is Ok ==> r->Ok_0.base() == self.committed@
+        ensures r is Ok ==> r->Ok_0.base() == self.committed@, storage_ok() ==> r is Ok
     { unimplemented!() }
     #[verifier::external_body]
     pub fn begin_read(&self) -> (r: std::result::Result<ReadTransaction, TransactionError>)
@@ -125,7 +129,7 @@ impl TransactionAndTables {
     /// opens the tables of a fresh write transaction: contents = what the transaction started from; `since` = now (arbitrary)
     #[verifier::external_body]
     pub fn new(tx: WriteTransaction) -> (r: std::result::Result<TransactionAndTables, TableError>)
-        ensures r is Ok ==> r->Ok_0@ == tx.base()
+        ensures r is Ok ==> r->Ok_0@ == tx.base(), storage_ok() ==> r is Ok
     { unimplemented!() }
 
     #[verifier::external_body]
@@ -151,6 +155,7 @@ impl TransactionAndTables {
         ensures
             r is Ok ==> final(db).committed@ == self@,
             r is Err ==> final(db).committed@ == old(db).committed@,
+            storage_ok() ==> r is Ok,
     { unimplemented!() }
 }
 
